@@ -22,13 +22,13 @@ type DocOpts struct {
 	NoSpaces     bool
 }
 
-var cmdNames = []string{"show", "configure", "ping", "*", "clear"}
+var cmdNames = []string{"show", "configure", "ping", "*", "clear", "show ip", "show"}
 var cmdPatterns = []string{
 	"terminal", "terminal|exclusive", "^terminal|exclusive$", "int.*", `^interface\s+\S+$`, `run\$`, "a.b",
 	"batch", "^system$", "system", "^sys", "tem$", ".*", "ip route .*", `\.`, "x+", "[a-c]+",
 }
 var cmdArgWords = []string{"terminal", "exclusive", "terminal ; reload", "run$", "run$ extra", "axb", "a.b", "batch", "system", "system ; id",
-	"sys", "tem", "interface  eth0", "int", "interfaces", "ip route 0.0.0.0", "x", "xxx", "abc", "abcd", ".", "", "<cr>"}
+	"sys", "tem", "ip", "route", "ip route", "ip route vrf", "interface  eth0", "int", "interfaces", "ip route 0.0.0.0", "x", "xxx", "abc", "abcd", ".", "", "<cr>"}
 
 var svcNames = []string{"shell", "ppp", "junos-exec", "cisco-av-pair", "exec"}
 
